@@ -139,7 +139,7 @@ def parse_graphic_sequence(
         return [AnsiSetting(AnsiParam.RESET.value)]
     output = []
     if isinstance(sequence, str):
-        items = [item.strip() for item in sequence.split(ansi_sep)]
+        items = [item.strip() or '0' for item in sequence.split(ansi_sep)]
     else:
         items = sequence
     # Attempt to make each value an integer
